@@ -14,21 +14,133 @@ RULE = ("random acyclic component graphs (2-12 nodes, all component types, requi
         "per participating component; seeded values untouched, never recomputed); run_order is a "
         "permutation of the graph and a linear extension; get_dependency_graph is the dependency "
         "closure. Non-trivial: a node with >= 2 dependencies and (a seeded node that has dependents or a "
-        "dependency reached along two paths).")
-ASSUMPTIONS = ["graphs are acyclic; component bodies do not touch the broker themselves"]
+        "dependency reached along two paths). In half of the cases every registry point / datasource "
+        "carries a generated priority (RegistryPoint(prio=N), datasource(..., prio=N)) that is independent "
+        "of the dependency relation. Sub-check archive: two-phase histories - the graph is evaluated once "
+        "with Hydration.make_persister observing a generated subset (a serialized archive on disk), then "
+        "evaluated against that archive with a broker the caller pre-filled (by assignment or through "
+        "Broker(seed_broker)), through Hydration.hydrate(broker) [+ pool] / hydration.initialize_broker("
+        "path, broker=) followed by any driver, or insights.process_dir / insights._run (serial and "
+        "parallel) on a full, target-closure or partial graph; same history invariant, with 'takes part' "
+        "following the documented pruning of dr.run under a SerializedArchiveContext, plus: every value "
+        "that was in the broker before the evaluation started (caller's or loaded from the archive) is "
+        "still there unchanged and its component's body never ran. Non-trivial there: the caller and the "
+        "archive supply a value for the same component and at least one body ran.")
+ASSUMPTIONS = ["graphs are acyclic; component bodies do not touch the broker themselves",
+               "archive sub-check: a (de)serializer pair for tuple is registered through the public serde "
+               "decorators for the duration of a case (the generated bodies return tuples)"]
 
 KINDS = dyn.DRIVERS + ["run_incremental", "run_all", "run_all_pool"]
+
+
+RP_PRIOS = [-2, -1, -1, 0, 0, 1, 1, 2, 5]
+DS_PRIOS = [0, 0, 0, 0, -1, 1, 3]
+
+
+def draw_prios(draw, case):
+    """Spec options that are documented to influence the order of collection (RegistryPoint(prio=N),
+    handed through by the spec factories to datasource(..., prio=N)): in half of the cases every
+    registry point / datasource gets a generated priority, independent of the dependency relation."""
+    if not draw(st.booleans()):
+        return
+    for nd in case["nodes"]:
+        if nd["t"] == "regpoint":
+            nd["prio"] = draw(st.sampled_from(RP_PRIOS))
+        elif nd["t"] == "datasource":
+            nd["prio"] = draw(st.sampled_from(DS_PRIOS))
+
+
+def prio_labels(b, case):
+    """coverage only: does a dependency edge run against the priorities the engine sees?"""
+    from insights.core import dr
+    if not any(nd.get("prio") for nd in case["nodes"]):
+        return []
+
+    def eff(c):
+        return getattr(next(iter(dr.get_registry_points(c) or [object])), "prio", 0)
+    labels = ["prio"]
+    pr = [eff(c) for c in b.comps]
+    for i, nd in enumerate(case["nodes"]):
+        if any(pr[i] > pr[j] for j in dyn.dep_set(nd)):
+            labels.append("prio-against-dependency")
+            break
+    return labels
 
 
 @st.composite
 def cases(draw, tier="quick"):
     case = draw(dyn.graphs(max_nodes=12 if tier == "quick" else 16, parts=draw(st.sampled_from([1, 1, 2, 3])),
                             none_seeds=True))
+    draw_prios(draw, case)
     case["driver"] = draw(dyn.driver(len(case["nodes"]), kinds=KINDS))
     # the same graph object evaluated again with a fresh broker (dr.run() on a group, cluster processing,
     # an evaluator called repeatedly): every evaluation has to satisfy the property on its own
     case["repeat"] = draw(st.sampled_from([1, 1, 2, 3]))
     return case
+
+
+def check_history(case, b, broker, graph_nodes, part, seeded, preloaded=(), seed_objs=None, outside_once=True):
+    """The invariant over one evaluation's history (b.log: body calls and observer events, in order).
+
+    graph_nodes: nodes of the graph that was handed to the engine; part: those of them that take part
+    in the evaluation; seeded: nodes the caller supplied a value for before the evaluation started;
+    preloaded: nodes that had a value in the broker before the evaluation started for another reason
+    (loaded from an archive); outside_once: also components that do not take part (mentioned only as
+    somebody's dependency) are notified to observers at most once - true for one dr.run over one graph, not
+    demanded when a graph that is not closed under dependencies is split into sub-graphs."""
+    nodes = case["nodes"]
+    comps = b.comps
+    n = len(nodes)
+    first_event = {}
+    obs_pos = {}
+    whole_calls = {}
+    elem_calls = {}
+    obs_count = {}
+    for k, ev in enumerate(list(b.log)):
+        i = ev[1]
+        first_event.setdefault(i, k)
+        if ev[0] == "obs":
+            obs_count[i] = obs_count.get(i, 0) + 1
+            obs_pos.setdefault(i, k)
+        else:
+            if ev[3] is None:
+                whole_calls[i] = whole_calls.get(i, 0) + 1
+            else:
+                elem_calls.setdefault(i, []).append(ev[3])
+    for i in range(n):
+        if whole_calls.get(i, 0) > 1:
+            raise Violation("node %d ran %d times" % (i, whole_calls[i]), node=i)
+        if whole_calls.get(i) and elem_calls.get(i):
+            raise Violation("node %d ran both as a whole and per element" % i, node=i)
+        if i in elem_calls and elem_calls[i] != list(range(len(elem_calls[i]))):
+            raise Violation("multi-output node %d processed its elements as %r" % (i, elem_calls[i]), node=i)
+        ran = i in whole_calls or i in elem_calls
+        if ran and i in seeded:
+            raise Violation("seeded node %d was recomputed" % i, node=i)
+        if ran and i in preloaded:
+            raise Violation("node %d had a value (loaded from the archive) before the evaluation started and was "
+                            "recomputed" % i, node=i)
+        if ran and i not in graph_nodes:
+            raise Violation("node %d ran although it is not part of the evaluated graph" % i, node=i)
+        if i in part and obs_count.get(i, 0) != 1:
+            raise Violation("observer fired %d times for participating node %d (expected once)" % (
+                obs_count.get(i, 0), i), node=i)
+        if obs_count.get(i, 0) > 1 and outside_once:
+            raise Violation("observer fired %d times for node %d" % (obs_count[i], i), node=i)
+        if ran and i in obs_pos and obs_pos[i] < first_event[i]:
+            raise Violation("observer for node %d fired before the node ran" % i)
+        if i in first_event and (ran or i in part):
+            for j in dyn.dep_set(nodes[i]):
+                if j in part and not (j in obs_pos and obs_pos[j] < first_event[i]):
+                    raise Violation("node %d was attempted before its dependency %d had been attempted" % (i, j),
+                                    node=i, dependency=j)
+    for i in sorted(seeded):
+        want = seed_objs[i] if seed_objs is not None else dyn.seed_value(case, i)
+        if comps[i] not in broker:
+            raise Violation("seeded value of node %d disappeared" % i, node=i)
+        v = broker[comps[i]]
+        if v is not want and (v != want or type(v) is not type(want)):
+            raise Violation("seeded value of node %d was replaced by %r" % (i, v), node=i)
 
 
 def check(case):
@@ -70,54 +182,7 @@ def check(case):
             broker, escaped = dyn.execute(case, b, drv, graphs=graphs)
             if escaped is not None:
                 raise Violation("evaluation raised %s: %s" % (type(escaped).__name__, escaped))
-            seeded = set(case["seeded"])
-            first_event = {}
-            obs_pos = {}
-            whole_calls = {}
-            elem_calls = {}
-            obs_count = {}
-            for k, ev in enumerate(b.log):
-                i = ev[1]
-                first_event.setdefault(i, k)
-                if ev[0] == "obs":
-                    obs_count[i] = obs_count.get(i, 0) + 1
-                    obs_pos.setdefault(i, k)
-                else:
-                    if ev[3] is None:
-                        whole_calls[i] = whole_calls.get(i, 0) + 1
-                    else:
-                        elem_calls.setdefault(i, []).append(ev[3])
-            for i in range(n):
-                if whole_calls.get(i, 0) > 1:
-                    raise Violation("node %d ran %d times" % (i, whole_calls[i]), node=i)
-                if whole_calls.get(i) and elem_calls.get(i):
-                    raise Violation("node %d ran both as a whole and per element" % i, node=i)
-                if i in elem_calls and elem_calls[i] != list(range(len(elem_calls[i]))):
-                    raise Violation("multi-output node %d processed its elements as %r" % (i, elem_calls[i]), node=i)
-                ran = i in whole_calls or i in elem_calls
-                if ran and i in seeded:
-                    raise Violation("seeded node %d was recomputed" % i, node=i)
-                if ran and i not in active:
-                    raise Violation("node %d ran although it is not part of the evaluated graph" % i, node=i)
-                if i in active and obs_count.get(i, 0) != 1:
-                    raise Violation("observer fired %d times for participating node %d (expected once)" % (
-                        obs_count.get(i, 0), i), node=i)
-                if obs_count.get(i, 0) > 1:
-                    raise Violation("observer fired %d times for node %d" % (obs_count[i], i), node=i)
-                if ran and i in obs_pos and obs_pos[i] < first_event[i]:
-                    raise Violation("observer for node %d fired before the node ran" % i)
-                if i in first_event and (ran or i in active):
-                    for j in dyn.dep_set(nodes[i]):
-                        if j in active and not (j in obs_pos and obs_pos[j] < first_event[i]):
-                            raise Violation("node %d was attempted before its dependency %d had been attempted" % (i, j),
-                                            node=i, dependency=j)
-            for i in seeded:
-                want = dyn.seed_value(case, i)
-                if comps[i] not in broker:
-                    raise Violation("seeded value of node %d disappeared" % i, node=i)
-                v = broker[comps[i]]
-                if v != want or type(v) is not type(want):
-                    raise Violation("seeded value of node %d was replaced by %r" % (i, v), node=i)
+            check_history(case, b, broker, graph_nodes=active, part=active, seeded=set(case["seeded"]))
             # a stored value can never be overwritten
             for c in list(broker.instances)[:3]:
                 before = broker[c]
@@ -129,6 +194,7 @@ def check(case):
                 if broker[c] is not before:
                     raise Violation("Broker value changed by a rejected overwrite")
         # labels
+        seeded = set(case["seeded"])
         indeg = {}
         for nd in nodes:
             for j in dyn.dep_set(nd):
@@ -143,7 +209,7 @@ def check(case):
                     if x < y and dyn.closure(case, [x]) & dyn.closure(case, [y]):
                         diamond = True
         nontrivial = multi_dep and (seeded_with_dependents or diamond)
-        labels = ["driver=" + drv["kind"]]
+        labels = ["driver=" + drv["kind"]] + prio_labels(b, case)
         if diamond:
             labels.append("diamond")
         if seeded_with_dependents:
@@ -155,11 +221,289 @@ def check(case):
         dyn.cleanup(b)
 
 
+# ---- evaluation of a serialized archive with a broker the caller pre-filled ------------------------------
+#
+# A two-phase history: (1) "collection" - the graph is evaluated once with Hydration.make_persister
+# observing a generated subset of the components (what insights-collect does), which leaves a serialized
+# archive (insights_archive.txt + meta_data/) on disk; (2) "analysis" - the caller puts its own values for
+# some components into a broker and evaluates the graph against that archive through one of the public
+# entry points.  On that path the engine itself loads values into the caller's broker before (and as part
+# of) the evaluation, so the clause "a value supplied before the evaluation starts is never recomputed or
+# overwritten" has a second writer to hold against.
+
+VIAS = ["process_dir", "initialize_broker", "hydrate", "_run"]
+ARCHIVE_DRIVERS = ["run_full", "run_targets", "run_single_target", "run_subset", "run_components",
+                   "run_incremental", "run_all", "run_all_pool"]
+GRAPH_DRIVERS = ["run_full", "run_targets", "run_subset"]       # shapes of the graph handed to process_dir/_run
+
+
+@st.composite
+def archive_cases(draw, tier="quick"):
+    # (fewer faults than in the plain history: a component that produced nothing is not in the archive)
+    case = draw(dyn.graphs(min_nodes=3, max_nodes=10 if tier == "quick" else 14,
+                            parts=draw(st.sampled_from([1, 1, 2])), none_seeds=True,
+                            faults=draw(st.sampled_from([False, False, True]))))
+    draw_prios(draw, case)
+    n = len(case["nodes"])
+    if draw(st.sampled_from([True, True, False])):
+        case["persist"] = list(range(n))        # what insights-collect does: everything that can be persisted
+    else:
+        case["persist"] = sorted(draw(st.sets(st.integers(0, n - 1), max_size=n)))
+    # the caller's values: the seeds of the graph strategy plus one or two aimed at persisted components
+    extra = draw(st.lists(st.sampled_from(case["persist"]), min_size=1, max_size=2)) if case["persist"] else []
+    for i in extra:
+        if i not in case["seeded"]:
+            case["seeded"] = sorted(case["seeded"] + [i])
+            case["seed_vals"][str(i)] = draw(st.sampled_from(dyn.SEED_KINDS + ["none"]))
+    case["seed_via"] = draw(st.sampled_from(["setitem", "setitem", "seed_broker"]))
+    via = case["via"] = draw(st.sampled_from(VIAS))
+    if via in ("hydrate", "initialize_broker"):
+        case["driver"] = draw(dyn.driver(n, kinds=ARCHIVE_DRIVERS))
+        case["hydrate_pool"] = draw(st.sampled_from([0, 0, 2])) if via == "hydrate" else 0
+    else:
+        case["driver"] = draw(dyn.driver(n, kinds=GRAPH_DRIVERS))
+        case["parallel"] = draw(st.booleans())
+    return case
+
+
+TMP_PREFIX = "vp-c01-"
+
+
+def _sweep_stale_tmp():
+    """Workers are killed when another worker has found a violation or the budget is over; a case they
+    were in the middle of cannot clean up after itself.  Directories of dead processes are removed at the
+    next start."""
+    import os
+    import shutil
+    import tempfile
+    top = tempfile.gettempdir()
+    for fn in os.listdir(top):
+        if not fn.startswith(TMP_PREFIX):
+            continue
+        pid = fn[len(TMP_PREFIX):].split("-")[0]
+        if not pid.isdigit():
+            continue
+        try:
+            os.kill(int(pid), 0)
+        except ProcessLookupError:
+            shutil.rmtree(os.path.join(top, fn), ignore_errors=True)
+        except OSError:
+            pass
+
+
+def selftest():
+    _sweep_stale_tmp()
+
+
+def _tuple_serde(register):
+    """dyn's bodies return tuples (and lists of tuples); the documented extension point of serde lets a
+    type be made persistable - registered for the duration of one case only."""
+    from insights.core import dr, serde
+    name = dr.get_name(tuple)
+    if not register:
+        serde.SERIALIZERS.pop(name, None)
+        serde.DESERIALIZERS.pop(name, None)
+        return
+    if name in serde.SERIALIZERS or name in serde.DESERIALIZERS:
+        raise AssertionError("harness: a (de)serializer for tuple is already registered")
+
+    @serde.serializer(tuple)
+    def ser_tuple(obj, root=None):
+        return list(obj)
+
+    @serde.deserializer(tuple)
+    def deser_tuple(_type, data, root=None, ctx=None, ds=None):
+        return tuple(data)
+
+
+def _archive_drive(case, b, drv, broker):
+    from insights.core import dr
+    comps, nodes = b.comps, case["nodes"]
+
+    def full_graph():
+        return dict((c, set(comps[j] for j in dyn.dep_set(nodes[i]))) for i, c in enumerate(comps))
+    kind = drv["kind"]
+    if kind == "run_full":
+        dr.run(full_graph(), broker=broker)
+    elif kind == "run_targets":
+        dr.run([comps[i] for i in drv["targets"]], broker=broker)
+    elif kind == "run_single_target":
+        dr.run(comps[drv["targets"][0]], broker=broker)
+    elif kind == "run_subset":
+        dr.run(dict((comps[i], set(comps[j] for j in dyn.dep_set(nodes[i]))) for i in drv["subset"]), broker=broker)
+    elif kind == "run_components":
+        order = [comps[i] for i in dyn.linear_extension(case, range(len(comps)), drv["prio"])]
+        dr.run_components(order, full_graph(), broker)
+    elif kind == "run_incremental":
+        list(dr.run_incremental(full_graph(), broker=broker))
+    elif kind == "run_all":
+        dr.run_all(full_graph(), broker=broker)
+    elif kind == "run_all_pool":
+        from concurrent.futures import ThreadPoolExecutor
+        with ThreadPoolExecutor(2) as pool:
+            dr.run_all(full_graph(), broker=broker, pool=pool)
+    else:
+        raise AssertionError(kind)
+
+
+def check_archive(case):
+    import json
+    import logging
+    import os
+    import shutil
+    import tempfile
+    import insights
+    from insights.core import dr, hydration, serde
+    from insights.core.context import SerializedArchiveContext
+
+    nodes = case["nodes"]
+    n = len(nodes)
+    drv = case["driver"]
+    via = case["via"]
+    prev_disable = logging.root.manager.disable
+    logging.disable(logging.CRITICAL)
+    names_before = set(dr.COMPONENTS_BY_NAME)
+    tmp = tempfile.mkdtemp(prefix="%s%d-" % (TMP_PREFIX, os.getpid()))
+    b = None
+    pool = None
+    registered = False
+    try:
+        _tuple_serde(True)
+        registered = True
+        b = dyn.build(case)
+        comps = b.comps
+        # -- phase 1: collection ----------------------------------------------------------------------------
+        root = os.path.join(tmp, "out", "insights-archive")
+        os.makedirs(root)
+        with open(os.path.join(root, "insights_archive.txt"), "w") as f:
+            f.write("vp\n")
+        h = serde.Hydration(root, SerializedArchiveContext(root))
+        persister = h.make_persister(set(comps[i] for i in case["persist"]))
+        _, escaped = dyn.execute(dict(case, seeded=[], seed_vals={}), b, {"kind": "run_full"},
+                                 observers=[(persister, dr.ComponentType)])
+        if escaped is not None:
+            raise Violation("collection raised %s: %s" % (type(escaped).__name__, escaped))
+        # what the archive supplies: entries with results (read straight from the files)
+        index_of = dict((dr.get_name(c), i) for i, c in enumerate(comps))
+        archived = set()
+        meta = os.path.join(root, "meta_data")
+        for fn in (sorted(os.listdir(meta)) if os.path.isdir(meta) else []):
+            with open(os.path.join(meta, fn)) as f:
+                doc = json.load(f)
+            if doc.get("results") and doc.get("name") in index_of:
+                archived.add(index_of[doc["name"]])
+        # -- phase 2: analysis with the caller's broker -----------------------------------------------------
+        b.log[:] = []
+        b.raised.clear()
+        seeded = set(case["seeded"])
+        seed_objs = dict((i, dyn.seed_value(case, i)) for i in sorted(seeded))
+        if case.get("seed_via") == "seed_broker":
+            donor = dr.Broker()
+            for i in sorted(seeded):
+                donor[comps[i]] = seed_objs[i]
+            broker = dr.Broker(donor)
+        else:
+            broker = dr.Broker()
+            for i in sorted(seeded):
+                broker[comps[i]] = seed_objs[i]
+        broker.store_skips = case["store_skips"]
+
+        def recorder(c, brk):
+            b.log.append(("obs", b.index.get(c, -1)))
+        broker.add_observer(recorder)
+        mine = broker
+        before = None
+        try:
+            if via in ("hydrate", "initialize_broker"):
+                if via == "hydrate":
+                    if case.get("hydrate_pool"):
+                        from concurrent.futures import ThreadPoolExecutor
+                        pool = ThreadPoolExecutor(int(case["hydrate_pool"]))
+                    serde.Hydration(root, SerializedArchiveContext(root), pool=pool).hydrate(broker)
+                else:
+                    ctx, _ = hydration.initialize_broker(root, broker=broker)
+                    if not isinstance(ctx, SerializedArchiveContext):
+                        raise AssertionError("harness: archive not recognised as serialized archive: %r" % (ctx,))
+                before = dict(broker.instances)
+                _archive_drive(case, b, drv, broker)
+            else:
+                active = dyn.active_set(case, drv)
+                graph = dict((comps[i], set(comps[j] for j in dyn.dep_set(nodes[i]))) for i in sorted(active))
+                if via == "process_dir":
+                    insights.process_dir(broker, root, graph, None, parallel=bool(case.get("parallel")))
+                else:
+                    insights._run(broker, graph, root=root, parallel=bool(case.get("parallel")))
+        except (Violation, AssertionError):
+            raise
+        except Exception as e:  # noqa
+            raise Violation("evaluation of the archive through %s raised %s: %s" % (via, type(e).__name__, e))
+        if broker is not mine:
+            raise AssertionError("harness: lost the caller's broker")
+        # -- oracle ---------------------------------------------------------------------------------------
+        graph_nodes = dyn.active_set(case, drv)
+        if before is not None:
+            had_value = set(b.index[c] for c in before if c in b.index)
+        else:
+            had_value = seeded | archived
+        sac = broker.get(SerializedArchiveContext) is not None
+        pruned = set()
+        if sac and drv["kind"] != "run_components":
+            # documented in dr.run: under a SerializedArchiveContext the dependencies of everything that is
+            # already in the broker are taken out of the graph ("no need to collect them again")
+            for i in graph_nodes:
+                if i in had_value:
+                    pruned |= dyn.dep_set(nodes[i])
+        part = set(graph_nodes) - pruned
+        check_history(case, b, broker, graph_nodes=graph_nodes, part=part, seeded=seeded,
+                      preloaded=had_value - seeded, seed_objs=seed_objs, outside_once=False)
+        if before is not None:
+            for c, v in before.items():
+                if c not in broker.instances:
+                    raise Violation("value of node %r, in the broker before the evaluation started, disappeared" % (
+                        b.index.get(c, repr(c)),))
+                w = broker.instances[c]
+                if w is not v and (w != v or type(w) is not type(v)):
+                    raise Violation("value of node %r, in the broker before the evaluation started, was replaced by "
+                                    "%r" % (b.index.get(c, repr(c)), w))
+        ran = set(ev[1] for ev in b.log if ev[0] == "call")
+        both = seeded & archived
+        labels = ["via=" + via, "driver=" + drv["kind"], "seed_via=" + case.get("seed_via", "setitem")]
+        labels += prio_labels(b, case)
+        if archived:
+            labels.append("archive-supplies-values")
+        if both:
+            labels.append("caller-and-archive-supply-same-node")
+        if pruned & set(graph_nodes):
+            labels.append("dependencies-pruned")
+        if case.get("parallel") or case.get("hydrate_pool"):
+            labels.append("pool")
+        nontrivial = bool(both) and bool(ran)
+        if nontrivial:
+            labels.append("nontrivial")
+        return {"nontrivial": nontrivial, "labels": labels}
+    finally:
+        logging.disable(prev_disable)
+        if pool is not None:
+            pool.shutdown(wait=True)
+        if registered:
+            _tuple_serde(False)
+        for k in set(dr.COMPONENTS_BY_NAME) - names_before:
+            dr.COMPONENTS_BY_NAME.pop(k, None)
+        if b is not None:
+            dyn.cleanup(b)
+        shutil.rmtree(tmp, ignore_errors=True)
+
+
+def strat_archive(tier):
+    return archive_cases(tier)
+
+
 def strat(tier):
     return cases(tier)
 
 
-SUBS = [Sub("history", check, strategy=strat, quick=2500, thorough=20000, workers_quick=4)]
+SUBS = [Sub("history", check, strategy=strat, quick=2200, thorough=20000, workers_quick=4),
+        Sub("archive", check_archive, strategy=strat_archive, quick=350, thorough=6000, workers_quick=4)]
 
 _N = {"multi": 0, "efaults": ["ok"], "coe": True, "decl": [], "fault": "ok"}
 REGRESSIONS = [
